@@ -11,6 +11,8 @@ import (
 	"path/filepath"
 	"sort"
 	"strings"
+	"sync/atomic"
+	"time"
 	"unicode/utf16"
 
 	"github.com/robertkrimen/otto"
@@ -234,9 +236,10 @@ func JSStr(u []uint16) string {
 
 // Outcome of a guarded call into otto.
 type Outcome struct {
-	Val   otto.Value
-	Err   error
-	Panic interface{} // non-nil if a Go panic escaped the API
+	Val     otto.Value
+	Err     error
+	Panic   interface{} // non-nil if a Go panic escaped the API
+	Timeout bool        // the watchdog of Watch fired
 }
 
 func Guard(f func() (otto.Value, error)) (o Outcome) {
@@ -247,6 +250,44 @@ func Guard(f func() (otto.Value, error)) (o Outcome) {
 	}()
 	o.Val, o.Err = f()
 	return
+}
+
+// WatchdogHalt is the payload of the panic raised by the watchdog's interrupt function.
+const WatchdogHalt = "verif-watchdog-timeout"
+
+// Watch runs f on vm under a wall-clock watchdog: after d an interrupt function
+// that panics is sent (and re-sent every 50ms, because a JavaScript try can
+// swallow it).  A run ended by the watchdog is reported with Timeout = true.
+func Watch(vm *otto.Otto, d time.Duration, f func() (otto.Value, error)) Outcome {
+	vm.Interrupt = make(chan func(), 1)
+	done := make(chan struct{})
+	fired := int32(0)
+	go func() {
+		select {
+		case <-done:
+			return
+		case <-time.After(d):
+		}
+		for {
+			atomic.StoreInt32(&fired, 1)
+			select {
+			case vm.Interrupt <- func() { panic(WatchdogHalt) }:
+			case <-done:
+				return
+			}
+			select {
+			case <-done:
+				return
+			case <-time.After(50 * time.Millisecond):
+			}
+		}
+	}()
+	o := Guard(f)
+	close(done)
+	if atomic.LoadInt32(&fired) == 1 {
+		o.Timeout = true
+	}
+	return o
 }
 
 func RunJS(vm *otto.Otto, src string) Outcome {
